@@ -212,7 +212,26 @@ func runC21(c *Ctx) {
 					if isNilConst(v) {
 						continue
 					}
-					if al, ok := v.(*ssa.Alloc); !ok || !al.Heap {
+					// a record allocated in Get, nil, or a merge of the two (negative hit vs positive hit)
+					var fresh func(v ssa.Value, d int) bool
+					fresh = func(v ssa.Value, d int) bool {
+						if isNilConst(v) {
+							return true
+						}
+						if al, ok := v.(*ssa.Alloc); ok && al.Heap {
+							return true
+						}
+						if phi, ok := v.(*ssa.Phi); ok && d < 4 {
+							for _, e := range phi.Edges {
+								if !fresh(e, d+1) {
+									return false
+								}
+							}
+							return true
+						}
+						return false
+					}
+					if !fresh(v, 0) {
 						good = false
 					}
 				}
